@@ -355,6 +355,147 @@ def expansion_recipe(r, shrink=None, alternates=True):
     return rec
 
 
+# ------------------------------------------------------------------------------------------------
+# "chain" profile: lookups that FEED each other.  Uniformly random coverages almost never line up across lookups, so a
+# glyph produced by one lookup is rarely the input of the next; here every stage draws its inputs from sample words as the
+# earlier stages left them (the generator rewrites the words as it goes — a guide for the generator, not an oracle):
+#   ligature      over adjacent glyphs of the current words (so also ligatures OF ligatures and of multiplied glyphs),
+#   multiple      1 -> 2..4 / 1 -> 1 / 1 -> 0 (deletion) of glyphs of the current words, ligature outputs preferred (a
+#                 ligature glyph expanded again keeps its ligature id; every output is a "ligature base" of that id),
+#                 the source glyph itself may be among its outputs,
+#   single        1 -> 1 renaming,
+#   context       a chained format-3 rule over a current word that calls one of the earlier lookups.
+# The recipe records the text words (`seqs`), the words after the last stage (`final_words`) and the adjacent glyph pairs
+# of those (`final_pairs`): a positioning table generated next to it can aim at glyphs and pairs that really occur.
+
+CHAIN_TAGS = ["ccmp", "liga", "calt", "rlig", "locl", "clig", "rclt"]      # on by default in the default shaper
+CHAIN_KINDS = ["lig", "lig", "lig", "mult", "mult", "mult", "single", "ctx"]
+
+
+def chain_recipe(r, gdef=None):
+    nb = r.range(4, 7)
+    base = list(range(1, nb + 1))
+    nxt = [nb + 1]
+
+    def fresh():
+        nxt[0] += 1
+        return nxt[0] - 1
+
+    words = [[r.choice(base) for _ in range(r.range(2, 5))] for _ in range(r.range(3, 6))]
+    seqs = [list(w) for w in words]
+    ligs, mults = set(), set()
+    lookups = []
+
+    def rewrite(fn):
+        for k, w in enumerate(words):
+            out, i = [], 0
+            while i < len(w):
+                rep, used = fn(w, i)
+                out += rep
+                i += used
+            words[k] = out
+
+    def live():
+        return sorted({g for w in words for g in w})
+
+    nstages = r.range(2, 5)
+    for stage in range(nstages):
+        kind = r.choice(CHAIN_KINDS) if stage else r.choice(["lig", "lig", "lig", "mult"])
+        lv = live()
+        if not lv:
+            break
+        flag = r.choice([0, 0, 0, 0, 8, 2, 4])
+        if kind == "lig":
+            cands = [tuple(w[i:i + k]) for w in words for k in (2, 2, 3) for i in range(len(w) - k + 1)]
+            if not cands:
+                continue
+            rules = {}
+            for sq in r.sample(sorted(set(cands)), min(r.range(1, 3), len(set(cands)))):
+                tgt = fresh() if r.chance(5, 6) else r.choice(lv)
+                rules.setdefault(sq[0], []).append((list(sq[1:]), tgt))
+                ligs.add(tgt)
+            for f in rules:
+                rules[f].sort(key=lambda x: -len(x[0]))                   # longest first, as font compilers write them
+            cov = sorted(rules)
+            lookups.append({"type": 4, "flag": flag, "subtables": [{"coverage": cov, "ligsets": [
+                [{"components": c, "glyph": g} for c, g in rules[f]] for f in cov]}]})
+
+            def fn(w, i, rules=rules):
+                for c, g in rules.get(w[i], []):
+                    if w[i + 1:i + 1 + len(c)] == c:
+                        return [g], 1 + len(c)
+                return [w[i]], 1
+            rewrite(fn)
+        elif kind == "mult":
+            pref = [g for g in lv if g in ligs]
+            srcs = set()
+            for _ in range(r.range(1, 3)):
+                srcs.add(r.choice(pref) if pref and r.chance(2, 3) else r.choice(lv))
+            seqmap = {}
+            for g in sorted(srcs):
+                ln = r.choice([2, 2, 2, 3, 3, 4, 1, 0])
+                sq = [(g if r.chance(1, 4) else r.choice(lv) if r.chance(1, 4) else fresh()) for _ in range(ln)]
+                seqmap[g] = sq
+                if ln > 1:
+                    mults.update(sq)
+                    if g in ligs: ligs.update(sq)
+            cov = sorted(seqmap)
+            lookups.append({"type": 2, "flag": flag, "subtables": [{"coverage": cov, "sequences": [seqmap[g] for g in cov]}]})
+            rewrite(lambda w, i: (list(seqmap[w[i]]) if w[i] in seqmap else [w[i]], 1))
+        elif kind == "single":
+            srcs = sorted(set(r.sample(lv, min(len(lv), r.range(1, 3)))))
+            sm = {g: (fresh() if r.chance(2, 3) else r.choice(lv)) for g in srcs}
+            for g in srcs:
+                if g in ligs: ligs.add(sm[g])
+            lookups.append({"type": 1, "flag": flag, "subtables": [{"format": 2, "coverage": srcs, "subst": [sm[g] for g in srcs]}]})
+            rewrite(lambda w, i: ([sm.get(w[i], w[i])], 1))
+        else:
+            # a chained context over a whole current word (or a piece of it) calling earlier lookups at its positions
+            w = r.choice([w for w in words if w] or [[r.choice(lv)]])
+            a = r.below(len(w)); b = r.range(a + 1, min(len(w), a + 3))
+            inp = w[a:b]
+            recs = [(r.below(len(inp)), r.below(len(lookups))) for _ in range(r.range(1, 2))] if lookups else []
+            lookups.append({"type": 6, "flag": flag, "subtables": [{
+                "format": 3, "backtrack": [[g] for g in reversed(w[max(0, a - 1):a])] if r.chance(1, 2) else [],
+                "coverages": [sorted(set([g] + r.sample(lv, r.range(0, 1)))) for g in inp],
+                "lookahead": [[g] for g in w[b:b + 1]] if r.chance(1, 2) else [], "lookups": recs}]})
+            # (the words are left as they are: what the nested lookup does there is not tracked)
+    if not lookups:
+        lookups.append({"type": 1, "flag": 0, "subtables": [{"format": 1, "coverage": [1], "delta": 1}]})
+    n = nxt[0] + 1 + r.below(3)
+    rec = {"num_glyphs": n, "cmap": "pua", "advances": [500 + 10 * (g % 40) for g in range(n)], "seqs": seqs, "text_glyphs": base,
+           "profile": "chain", "final_words": [list(w) for w in words],
+           "final_pairs": sorted({(w[i], w[i + 1]) for w in words for i in range(len(w) - 1)}),
+           "lig_glyphs": sorted(ligs), "mult_glyphs": sorted(mults)}
+    # GDEF: none / agreeing with what the lookups make (ligature outputs are ligatures, a few text glyphs are marks) /
+    # drawn at random (so ligature outputs and multiplied glyphs may be marks, text marks may be bases)
+    gdef = r.choice(["none", "agree", "random"]) if gdef is None else gdef
+    if gdef == "agree":
+        marks = set(r.sample(base, r.range(0, 2)))
+        cls = {g: 3 if g in marks else 2 if g in ligs else 1 for g in range(1, n) if g in marks or r.chance(7, 8)}
+        rec["gdef"] = {"classes": cls}
+    elif gdef == "random":
+        cls = {g: r.choice([1, 1, 2, 3, 3]) for g in range(1, n) if r.chance(3, 4)}
+        rec["gdef"] = {"classes": cls}
+        mk = [g for g, c in cls.items() if c == 3]
+        if mk and r.chance(1, 3):
+            rec["gdef"]["mark_attach"] = {g: r.range(1, 2) for g in mk if r.chance(2, 3)}
+    if "gdef" not in rec:
+        for lk in lookups:
+            lk["flag"] = 0 if r.chance(2, 3) else lk["flag"]
+    # features: the stages run in lookup order; one or two default-on tags share them
+    tags = r.sample(CHAIN_TAGS, r.range(1, 2))
+    nl = len(lookups)
+    mains = [i for i, lk in enumerate(lookups)]
+    if len(tags) == 1:
+        feats = [{"tag": tags[0], "lookups": mains}]
+    else:
+        cut = r.range(0, nl)
+        feats = [{"tag": tags[0], "lookups": mains[:cut] or mains}, {"tag": tags[1], "lookups": mains[cut:] or mains}]
+    rec["gsub"] = {"features": feats, "lookups": lookups}
+    return rec
+
+
 def rand_glyphs(r, rec, k):
     """k glyph ids for a text over the font: uniform, or — when the recipe names the sequences its rules wait for — those
     sequences strung together with the recipe's text glyphs in between"""
